@@ -561,6 +561,25 @@ def run_c20(ctx: common.Ctx):
             if eq1 != same:
                 ctx.monitor_failure('C20:eq-vs-structure', f'{p} == {q} is {eq1} but same type/text/structure is {same}', dict(w, a=p, b=q))
             ctx.count('pairs_compared')
+        # whole files whose texts differ only BEHIND the last directive (tokens that belong to no child: only File's own
+        # token comparison can see them): one more / one fewer final line break, a blanks-only last line; both ways round
+        for tail_name, text2 in (('plus-newline', text + '\n'), ('plus-blank-line', text + '  \n'),
+                                 ('minus-final-newline', text[:-1] if text.endswith('\n') else None),
+                                 ('plus-two-newlines', text + '\n\n')):
+            if text2 is None or text2 == text:
+                continue
+            h = gen_docs.parse_ok(text2, ac)
+            if h is None:
+                continue
+            try:
+                e1, e2 = (f == h), (h == f)
+            except Exception as x:
+                ctx.monitor_failure('C20:eq-raised', f'File == File({tail_name}) raised {type(x).__name__}', dict(w, variant=tail_name))
+                continue
+            if e1 or e2:
+                ctx.monitor_failure('C20:eq-vs-structure', f'two files whose texts differ only behind the last directive ({tail_name}: '
+                                    f'{text[-12:]!r} vs {text2[-12:]!r}) compare equal ({e1}, reversed {e2})', dict(w, variant=tail_name, text2=text2))
+            ctx.count('pairs_compared')
         # models of the same document that span the same tokens but differ in type (NumberExpr / NumberAddExpr /
         # NumberMulExpr / Number ...) or in structure must be unequal; a model always equals itself
         trees = [(p, m) for p, m in nf if isinstance(m, base.RawTreeModel)]
@@ -1227,10 +1246,17 @@ GLUED_TEXTS = [
     '2000-01-01 *"n"#t\n  Assets:A\n',
     '2000-01-01 balance Assets:A 1~0.1 USD;c\n',
     '2000-01-01 txn"p""n"^l;c\n  Assets:A\n',
+    # multi-token children with separators in FRONT that touch what follows (the keep-the-separators branch must take
+    # the whole child, not its last token)
+    '2000-01-01 *\n    Assets:Cash  10 + 2CAD\n',
+    '2000-01-01 *\n    Assets:Cash  1 USD {2 EUR} @ 3 EUR;note\n',
+    '2000-01-01 *\n    Assets:Cash  1 USD {2 EUR, 2000-01-01}@ 3 EUR\n',
+    '2000-01-01 balance Assets:A 1 ~ 0.1 + 0.2USD\n',
+    '2000-01-01 *\n    ! Assets:Cash  (1 + 2)USD @@ 3 * 2EUR;c\n',
 ]
 
 
-def run_c06_glued_removals(ctx: common.Ctx):
+def run_c06_glued_removals(ctx: common.Ctx, prop: str = 'C06'):
     """Directed: optional children that are written right against a neighbour (legal where the lexer needs no blank).
     Each present optional child of each model is removed on its own (fresh parse), and then all of them one after the
     other in the same document; after every accepted removal the printed text must re-parse to what the model says."""
@@ -1266,8 +1292,11 @@ def run_c06_glued_removals(ctx: common.Ctx):
         w = {'text': text, 'history': list(hist), 'printed': out}
         hp = health.problems(f)
         if hp:
-            ctx.monitor_failure(f'C06:health:{hp[0][0]}', f'after {hist}: {hp[0][1]}', w)
+            ctx.monitor_failure('C05:not-wf-after-edit' if prop == 'C05' else f'{prop}:health:{hp[0][0]}',
+                                f'after {hist} on {text!r} (printed {out!r}): {hp[0][1]}', w)
             return False
+        if prop != 'C06':
+            return True
         g = gen_docs.parse_ok(out, True)
         if g is None:
             ctx.monitor_failure('C06:printed-text-rejected', f'after {hist} on {text!r} the printed document {out!r} no longer parses', w)
@@ -1403,6 +1432,46 @@ def run_c06_glued_list_removals(ctx: common.Ctx):
                 if not judge(f, text, attr, hist, before):
                     break
             ctx.case({'text': text, 'pops': hist}, nontrivial=bool(hist))
+
+
+def run_c06_constructed_customs(ctx: common.Ctx):
+    """Directed: a custom directive built from values (the route that DOES disambiguate adjacent numbers) is put into
+    a parsed document; the printed text must re-parse to the values the model reports - runs of sign-led numbers and
+    amounts of every length, after parenthesised, plain and non-numeric neighbours."""
+    import datetime
+    import decimal
+    import itertools
+    from autobean_refactor import models
+    D = decimal.Decimal
+    atoms = [D(10), D(-2), D(-3), D('+4') if False else D(4), 'txt', True, datetime.date(2000, 1, 2)]
+    lists = [list(c) for n in (2, 3, 4) for c in itertools.product([D(10), D(-2), D(-3)], repeat=n)]
+    lists += [[D(1), 'txt', D(-2), D(-3)], [D(-1), D(-2), True, D(-3), D(-4)], [D(5), datetime.date(2000, 1, 2), D(-6), D(-7)]]
+    base_text = '2000-01-01 open Assets:A\n'
+    for values in lists:
+        f = gen_docs.parse_ok(base_text, True)
+        try:
+            c = models.Custom.from_value(datetime.date(2000, 1, 3), 'x', list(values))
+            f.raw_directives.append(c)
+        except Exception as e:
+            ctx.count('constructed_customs_refused')
+            continue
+        ctx.count('constructed_customs')
+        out = treewalk.text_of(f)
+        w = {'values': [repr(v) for v in values], 'printed': out}
+        g = gen_docs.parse_ok(out, True)
+        if g is None:
+            ctx.monitor_failure('C06:printed-text-rejected', f'Custom.from_value(..., {values!r}) appended to a file prints {out!r}, which no longer parses', w)
+            continue
+        try:
+            mine = list(f.raw_directives[-1].values)
+            theirs = list(g.raw_directives[-1].values)
+        except Exception as e:
+            ctx.monitor_failure('C06:value-view-differs-from-text', f'values of the constructed custom cannot be read: {type(e).__name__}', w)
+            continue
+        if [repr(v) for v in mine] != [repr(v) for v in theirs]:
+            ctx.monitor_failure('C06:value-view-differs-from-text', f'Custom.from_value(..., {values!r}) says values = {mine!r}; its printed text '
+                                f'{out.splitlines()[-1]!r} re-parses to {theirs!r}', w)
+        ctx.case({'values': [repr(v) for v in values]}, nontrivial=True)
 
 
 def run_c06_whole_field(ctx: common.Ctx):
